@@ -187,21 +187,36 @@ def run(ctx):
             ctx.check(bool(adds) and not sep(p3, edges, adds), "LOOPDOM", p3.key, "G28:accumulate-after-verify",
                       "a round-two share is added to the signing share without (or before) its verification against "
                       "the same sender's commitment and the recipient's own identifier", p3.loc)
-            # culprit = the loop's sender
-            good = False
+            # culprit = the loop's sender: wherever the share check's failure is turned into the returned error (a map_err
+            # closure, a match in place, or an extracted helper), an InvalidSecretShare failure must be reported as
+            # InvalidSecretShare{culprit: Some(sender)} and every other error forwarded unchanged
+            sender = tfield(item, 0)
+            cands = []   # (list of alternative error terms, original-error matcher)
             for (e, fa) in v.facts:
-                if fa[0] == "succ" and fa[1][0] == "map_err" and share_check(item, arg(1), arg(2))(fa[1]):
-                    c = fa[1][2]
-                    if c[0] == "closure" and len(c[2]) == 1 and tfield(item, 0)(c[2][0]):
-                        cf = P.fns.get(c[1])
-                        if cf:
-                            ct = TermCx(P, cf).local(0)
-                            alts = ct[2] if ct[0] == "phi" else (ct,)
-                            named = [x for x in alts if x[0] == "agg" and x[3] == "InvalidSecretShare"]
-                            other = [x for x in alts if x == ("arg", 2)]
-                            good = (len(named) == 1 and len(other) == 1 and len(alts) == 2 and
-                                    dict(named[0][4])["culprit"] == ("agg", "adt", "core::option::Option", "Some",
-                                                                      (("0", ("field", ("arg", 1), None, "0")),)))
+                if fa[0] != "succ":
+                    continue
+                X = fa[1]
+                if X[0] == "map_err" and share_check(item, arg(1), arg(2))(X):
+                    c = X[2]
+                    cf = P.fns.get(c[1]) if c[0] == "closure" else None
+                    if cf:
+                        sub = {1: ("agg", "tuple", None, None, tuple((str(n), val) for n, val in enumerate(c[2])))}
+                        ct = TermCx(P, cf, sub, 1).local(0)
+                        cands.append((ct[2] if ct[0] == "phi" else (ct,), lambda x: x == ("arg", 2)))
+                elif X[0] == "call" and X[1] in P.fns and P.fns[X[1]].has_body and X[1] != p3.key and \
+                        any(share_check(item, arg(1), arg(2))(lf[1]) for lf in lifted_facts(P, P.fns[X[1]], X[2], (X[3],)) if lf[0] == "succ"):
+                    H = P.fns[X[1]]
+                    hv = TermCx(P, H, {n + 1: a for n, a in enumerate(X[2])}, 1)
+                    alts = [hv.operand(rv["ops"][0]) for (b, k, rv) in ret_writes(H) if k == "err"]
+                    cands.append((tuple(alts), lambda x: x[0] in ("errval",) or (x[0] == "field" and mentions(x, lambda s: s[0] == "errval"))))
+            good = False
+            for alts, is_orig in cands:
+                named = [x for x in alts if x[0] == "agg" and x[3] == "InvalidSecretShare"]
+                other = [x for x in alts if not (x[0] == "agg" and x[3] == "InvalidSecretShare")]
+                if len(named) == 1 and len(other) >= 1 and all(is_orig(x) for x in other):
+                    cu = dict(named[0][4])["culprit"]
+                    if cu[0] == "agg" and cu[3] == "Some" and (sender(cu[4][0][1]) or sender(strip_newtype_fields(cu[4][0][1]))):
+                        good = True
             ctx.check(good, "PROV", p3.key, "G28:culprit-is-sender",
                       "a failing round-two share must be reported as InvalidSecretShare{culprit: Some(the sender of "
                       "that share)}; other errors are forwarded unchanged", p3.loc)
